@@ -626,7 +626,32 @@ def cases_nrep_later_fails():
         return
 
 
+def cases_late_stride():
+    """a 1D process of 24 000 steps (cooling stride 3) whose nucleation is placed - by means of the model's E
+    trace - at step ~15 000 during a hold at -10 C, so that the solidification stage has fewer than 10 000 steps
+    and ITS stride is 1: the two stages are recorded with different strides"""
+    h, n, k_target = 0.02, 24000, 15000
+    dt = su.dt_1d_default(h)
+    base = dict(dim="1D", config="shelf", height=h, k_s0=2000, t_tot=(n - 1.5) * dt, start=20, stop=-50, rate=0.5,
+                holds=[[-10.0, 15600 * dt]], cnTemp=None, kind="late-nucleation:strides-differ", row_stride=499)
+    try:
+        rec = su.record_inputs(base)
+        drv = core.Driver()
+        m = su.decode_model(drv.call(su.model_request(base, rec, Frand=1 - 1e-16, traces=True, row_stride=10 ** 9)))
+        drv.close()
+        E = m["Etrace"]
+        if m["NtExp"] != n or len(E) <= k_target or not (1e-14 < E[k_target] < 20) or E[k_target] <= E[k_target - 1]:
+            return
+        c = dict(base)
+        c["Frand"] = 1 - math.exp(-(E[k_target - 1] + E[k_target]) / 2)
+        yield c
+    except Exception:
+        return
+
+
 def cases(rng, tier):
+    for c in cases_late_stride():
+        yield c
     yield su.jacket_case()
     for c in cases_nrep_later_fails():
         yield c
